@@ -693,3 +693,8 @@ M("c15-cell-storage-from-free-vars", ["C15"], VM,
 T("t-c15-bind-copies-cells-first", ["C15"], VM,
   "            # Copy compiled function reference\n            if hasattr(func, \"_compiled\"):\n                bound_func._compiled = func._compiled\n            # Copy closure cells\n            if hasattr(func, \"_closure_cells\"):\n                bound_func._closure_cells = func._closure_cells\n",
   "            # Copy closure cells\n            if hasattr(func, \"_closure_cells\"):\n                bound_func._closure_cells = func._closure_cells\n            # Copy compiled function reference\n            if hasattr(func, \"_compiled\"):\n                bound_func._compiled = func._compiled\n")
+S("seed-C02-c", ["C02"], "seeded/C02-c/patch.diff", [("C02", "C02-R3c", "host_depth:binding")], note="host-depth counter turned into an int: nested interpreters copy the outermost value")
+M("c02-nested-vm-does-not-adopt-depth", ["C02"], CX,
+  "            vm.start_time = self._current_vm.start_time\n            vm.host_depth = self._current_vm.host_depth\n        else:",
+  "            vm.start_time = self._current_vm.start_time\n        else:",
+  [("C02", "C02-R3c", "adopts-host_depth")], note="host-driven call path no longer counts its nesting")
